@@ -514,13 +514,14 @@ def run(ctx):
         for _ in ctx.gate["theorems"]:
             ctx.oblige(True)
     except core.GateFailure as g:
-        if g.what == "schema-translation" or not os.path.exists(NAMES_JSON):
-            raise
-        # the proof no longer checks (e.g. the generated schema is not well-formed): still search
-        # for a failing input with the differential part, then report the broken gate
+        # the translation or the proof no longer checks (the Rust definitions use something the translator does not
+        # model, or the generated schema is not well-formed): still search for a failing input, then report the
+        # broken gate.  Without a usable schema only the observational part runs (every query and every parse on the
+        # originals vs the reconstituted objects), which needs no model.
         gate_err = g
+    with_model = gate_err is None or (gate_err.what != "schema-translation" and os.path.exists(NAMES_JSON))
     try:
-        differential(ctx)
+        differential(ctx, with_model)
     except core.GateFailure:
         if gate_err is None:
             raise
@@ -528,11 +529,14 @@ def run(ctx):
         raise gate_err
 
 
-def differential(ctx):
-    meta = json.load(open(NAMES_JSON))
-    names, info = meta["names"], meta["info"]
+def differential(ctx, with_model=True):
+    if with_model:
+        meta = json.load(open(NAMES_JSON))
+        names, info = meta["names"], meta["info"]
+        mexe = core.build_model("c14")
+    else:
+        names, info, mexe = {}, {"versions": None, "notes": "schema translation failed: observational part only", "digest": {}}, None
     exe = core.build_harness("c14")
-    mexe = core.build_model("c14")
     cases = gen_cases(ctx, ctx.n(70, 1200))
     confs = [(w, e) for w in ("8", "16", "32") for e in ("fix", "var")]
     lines, idx = [], []
@@ -547,13 +551,13 @@ def differential(ctx):
     # model side: decode both blobs of every case that produced bytes
     mlines, mref = [], []
     for li, d in enumerate(parsed):
-        if "BG" in d and "BS" in d:
+        if with_model and "BG" in d and "BS" in d:
             ci, w, e = idx[li]
             mlines.append("G %s %s %s" % (w, e, d["BG"] or "-"))
             mref.append((li, "G"))
             mlines.append("S %s %s %s" % (w, e, d["BS"] or "-"))
             mref.append((li, "S"))
-    mout = core.run_lines([mexe], mlines)
+    mout = core.run_lines([mexe], mlines) if with_model else []
     model = {}
     for (li, which), o in zip(mref, mout):
         model[(li, which)] = o
@@ -597,7 +601,7 @@ def differential(ctx):
         # ---- (1) model decodes the implementation's bytes completely and re-encodes them identically
         problems = []
         dec = {}
-        for which, nm in (("G", "YaccGrammar"), ("S", "StateTable")):
+        for which, nm in ((("G", "YaccGrammar"), ("S", "StateTable")) if with_model else ()):
             mo = model.get((li, which), "MISSING")
             if not mo.startswith("OK "):
                 problems.append("%s: extracted decoder rejects the implementation's bytes (%s)" % (nm, mo[:60]))
